@@ -171,6 +171,16 @@ class _Quiet:
 
 
 QUIET_CONSUMERS = {"sorted", "len", "frozenset", "set", "min", "max", "sum"}
+# calls whose result depends on the order in which their argument is iterated
+ORDERED_CONSUMERS = {"list", "tuple", "iter", "enumerate", "zip", "deque", "sorted", "min", "max", "next", "map", "filter", "dict"}
+
+
+def own(x):
+    """Iteration sites: a plain ``set`` / ``frozenset`` that reached the library code without passing a rewritten constructor
+    (e.g. ``dict.keys() & names``, a set returned by a builtin) is handed to the explorer as well."""
+    if type(x) is set or type(x) is frozenset:
+        return VSet(x)
+    return x
 
 
 class _Rewriter(ast.NodeTransformer):
@@ -184,8 +194,30 @@ class _Rewriter(ast.NodeTransformer):
         return ast.copy_location(ast.Call(func=ast.Name(id="VSet_", ctx=ast.Load()),
                                           args=[ast.ListComp(elt=node.elt, generators=node.generators)], keywords=[]), node)
 
+    def _own(self, e):
+        return ast.copy_location(ast.Call(func=ast.Name(id="vs_own_", ctx=ast.Load()), args=[e], keywords=[]), e)
+
+    def visit_For(self, node: ast.For):
+        self.generic_visit(node)
+        node.iter = self._own(node.iter)
+        return node
+
+    def visit_comprehension(self, node: ast.comprehension):
+        self.generic_visit(node)
+        node.iter = self._own(node.iter)
+        return node
+
+    def visit_Starred(self, node: ast.Starred):
+        self.generic_visit(node)
+        if isinstance(node.ctx, ast.Load):
+            node.value = self._own(node.value)
+        return node
+
     def visit_Call(self, node: ast.Call):
         self.generic_visit(node)
+        plain_quiet = isinstance(node.func, ast.Name) and node.func.id in QUIET_CONSUMERS and len(node.args) == 1 and not node.keywords
+        if isinstance(node.func, ast.Name) and node.func.id in ORDERED_CONSUMERS and not plain_quiet:
+            node.args = [a if isinstance(a, ast.Starred) else self._own(a) for a in node.args]
         # a consumer is order-insensitive only in its plain form: with key= (ties!), default= or further arguments the order in
         # which the set's elements arrive can show in the result
         if isinstance(node.func, ast.Name) and node.func.id in QUIET_CONSUMERS and len(node.args) == 1 and not node.keywords:
@@ -209,6 +241,7 @@ class _Loader(importlib.abc.Loader):
         module.__dict__["set"] = VSet
         module.__dict__["VSet_"] = VSet
         module.__dict__["vs_quiet_"] = quiet
+        module.__dict__["vs_own_"] = own
         module.__file__ = self.path
         exec(code, module.__dict__)
 
